@@ -13,6 +13,33 @@ use std::cell::Cell;
 
 pub fn parse_schema(ty: &Ty) -> Result<Schema, String> {
 	let json = ast::to_json(ty);
+	// Two things at once: before one parse in four (a function of the text, so that a scenario replays), this thread
+	// first sees schema constructions that FAIL or are thrown away — a text that is not a schema, a hand-built graph
+	// with a dangling key under its root record (refused by freeze()), the same fingerprint walk on a graph that is
+	// then dropped. Whatever such an operation leaves behind (thread-local scratch state, caches) must not show in
+	// the schema parsed next.
+	let h = json.bytes().fold(0xcbf2_9ce4_8422_2325u64, |a, b| (a ^ b as u64).wrapping_mul(0x100_0000_01b3));
+	if h % 4 == 0 {
+		use serde_avro_fast::schema::{Name, Record, RecordField, RegularType, SchemaKey, SchemaMut, SchemaNode};
+		let _ = "{\"type\":\"record\",\"name\":\"a.N0\",\"fields\":[{\"name\":\"f0\",\"type\":\"nope\"}]}".parse::<Schema>();
+		let dangling = SchemaMut::from_nodes(vec![
+			SchemaNode::new(RegularType::Record(Record::new(
+				Name::from_fully_qualified_name("a.N0"),
+				vec![RecordField::new("f0", SchemaKey::from_idx(1)), RecordField::new("f1", SchemaKey::from_idx(7))],
+			))),
+			SchemaNode::new(RegularType::Int),
+		]);
+		let _ = dangling.canonical_form_rabin_fingerprint();
+		let _ = dangling.freeze();
+		if h % 8 == 0 {
+			let other = SchemaMut::from_nodes(vec![
+				SchemaNode::new(RegularType::Record(Record::new(Name::from_fully_qualified_name("a.N0"), vec![RecordField::new("f0", SchemaKey::from_idx(1))]))),
+				SchemaNode::new(RegularType::String),
+			]);
+			let _ = other.canonical_form_rabin_fingerprint();
+			drop(other);
+		}
+	}
 	json.parse::<Schema>().map_err(|e| format!("schema {json} rejected: {e}"))
 }
 
@@ -245,13 +272,46 @@ pub fn decode_reader(
 /// carries from one datum to the next — scratch buffer, limits, counters — is part of what is observed)
 #[derive(Clone, Debug, PartialEq)]
 pub struct StreamOut {
-	/// one entry per datum attempted; decoding stops at the first `Err`
+	/// one entry per datum attempted; decoding stops at the first `Err` (unless asked to go on)
 	pub items: Vec<Result<Val, String>>,
+	/// bytes consumed after each entry of `items` (reader path: `Direct` kinds only, else empty)
+	pub positions: Vec<usize>,
 	pub consumed: usize,
 	pub panicked: Option<String>,
 }
 
+/// Like `decode_stream_slice`, but a NEW deserializer state per datum over the rest of the slice (the slice path keeps
+/// nothing but its position between datums), going on after errors: the position after every attempt is known.
+pub fn decode_stream_slice_stepwise(schema: &Schema, env: &Env, ty: &Ty, bytes: &[u8], n: usize, target: Target, limits: Limits) -> StreamOut {
+	let mut items = vec![];
+	let mut positions = vec![];
+	let mut pos = 0usize;
+	let r = crate::runner::catch(|| {
+		for _ in 0..n {
+			let mut config = DeserializerConfig::new(schema);
+			config.max_seq_size = limits.max_seq_size;
+			config.allowed_depth = limits.allowed_depth;
+			let mut st = DeserializerState::with_config(serde_avro_fast::de::read::SliceRead::new(&bytes[pos..]), config);
+			let (r, _, _) = run_target(target, env, ty, st.deserializer());
+			let mut rest = st.into_reader();
+			let left = std::io::BufRead::fill_buf(&mut rest).map(|b| b.len()).unwrap_or(0);
+			pos = bytes.len() - left;
+			items.push(r.map_err(|e| e.to_string()));
+			positions.push(pos);
+			if pos >= bytes.len() {
+				break;
+			}
+		}
+	});
+	StreamOut { items, positions, consumed: pos, panicked: r.err() }
+}
+
 pub fn decode_stream_slice(schema: &Schema, env: &Env, ty: &Ty, bytes: &[u8], n: usize, target: Target, limits: Limits) -> StreamOut {
+	decode_stream_slice_ext(schema, env, ty, bytes, n, target, limits, true)
+}
+
+/// `stop_on_err = false`: the SAME deserializer state is used again after an error (up to `n` attempts)
+pub fn decode_stream_slice_ext(schema: &Schema, env: &Env, ty: &Ty, bytes: &[u8], n: usize, target: Target, limits: Limits, stop_on_err: bool) -> StreamOut {
 	let mut config = DeserializerConfig::new(schema);
 	config.max_seq_size = limits.max_seq_size;
 	config.allowed_depth = limits.allowed_depth;
@@ -261,7 +321,7 @@ pub fn decode_stream_slice(schema: &Schema, env: &Env, ty: &Ty, bytes: &[u8], n:
 		let mut st = DeserializerState::with_config(serde_avro_fast::de::read::SliceRead::new(bytes), config);
 		for _ in 0..n {
 			let (r, _, _) = run_target(target, env, ty, st.deserializer());
-			let stop = r.is_err();
+			let stop = r.is_err() && stop_on_err;
 			crate::simalloc::unmeasured(|| items.push(r.map_err(|e| e.to_string())));
 			if stop {
 				break;
@@ -271,10 +331,16 @@ pub fn decode_stream_slice(schema: &Schema, env: &Env, ty: &Ty, bytes: &[u8], n:
 		let left = std::io::BufRead::fill_buf(&mut rest).map(|b| b.len()).unwrap_or(0);
 		consumed = bytes.len() - left;
 	}));
-	StreamOut { items, consumed, panicked: r.err() }
+	StreamOut { items, positions: vec![], consumed, panicked: r.err() }
 }
 
 pub fn decode_stream_reader(schema: &Schema, env: &Env, ty: &Ty, bytes: &[u8], n: usize, target: Target, limits: Limits, kind: &ReaderKind) -> (StreamOut, SourceStats) {
+	decode_stream_reader_ext(schema, env, ty, bytes, n, target, limits, kind, true)
+}
+
+/// `stop_on_err = false`: ONE deserializer state all along, going on after errors (`Direct` kinds record the position
+/// after every attempt; decoding stops when the source is exhausted)
+pub fn decode_stream_reader_ext(schema: &Schema, env: &Env, ty: &Ty, bytes: &[u8], n: usize, target: Target, limits: Limits, kind: &ReaderKind, stop_on_err: bool) -> (StreamOut, SourceStats) {
 	let mut config = DeserializerConfig::new(schema);
 	config.max_seq_size = limits.max_seq_size;
 	config.allowed_depth = limits.allowed_depth;
@@ -284,7 +350,9 @@ pub fn decode_stream_reader(schema: &Schema, env: &Env, ty: &Ty, bytes: &[u8], n
 	};
 	let budget = step_budget(bytes.len(), &limits).saturating_add(64 * n as u64);
 	let mut src = SimSource::new(bytes, plan).with_step_budget(budget);
+	let handle = src.position_handle();
 	let mut items = vec![];
+	let mut positions = vec![];
 	let mut buffered = 0;
 	let r = crate::runner::catch(std::panic::AssertUnwindSafe(|| match cap {
 		None => {
@@ -293,9 +361,12 @@ pub fn decode_stream_reader(schema: &Schema, env: &Env, ty: &Ty, bytes: &[u8], n
 			let mut st = DeserializerState::with_config(rr, config);
 			for _ in 0..n {
 				let (r, _, _) = run_target(target, env, ty, st.deserializer());
-				let stop = r.is_err();
-				crate::simalloc::unmeasured(|| items.push(r.map_err(|e| e.to_string())));
-				if stop {
+				let stop = r.is_err() && stop_on_err;
+				crate::simalloc::unmeasured(|| {
+					items.push(r.map_err(|e| e.to_string()));
+					positions.push(handle.get());
+				});
+				if stop || (!stop_on_err && handle.get() >= bytes.len()) {
 					break;
 				}
 			}
@@ -317,7 +388,7 @@ pub fn decode_stream_reader(schema: &Schema, env: &Env, ty: &Ty, bytes: &[u8], n
 		}
 	}));
 	let consumed = src.position() - buffered;
-	(StreamOut { items, consumed, panicked: r.err() }, src.finish())
+	(StreamOut { items, positions, consumed, panicked: r.err() }, src.finish())
 }
 
 /// Serialize with the real crate into any `Write`
